@@ -79,6 +79,8 @@ pub struct E1<'c> {
     /// key ids of memos validated (not executed) in a step in which a cycle iterated (per revision)
     pub validated_during_iteration: std::collections::BTreeSet<u64>,
     /// C26: last (ident, t0, t1) each struct id was created with, across steps
+    /// C10: the assigned memo of some q_spec key was discarded earlier in the run (specified -> computed)
+    pub spec_switch_seen: bool,
     pub ts_created: std::collections::HashMap<u64, (u32, u32, u32)>,
     /// C26: after a restore, a struct id was created again with other field values
     pub ts_changed_after_restore: bool,
@@ -165,7 +167,7 @@ impl<'c> E1<'c> {
         fault::MASK.store(case.fault_mask, SeqCst);
         let db = SimDatabase::new(&case.prog, &world);
         let oracles = crate::oracles::for_case(case);
-        E1 { case, db: Some(db), world, out: RunOut::default(), step: 0, never: Default::default(), oracles, queries: 0, cycle_panicked_in_rev: false, fb_defect_seen: false, injected_now: false, poisoned_now: false, injected_in_rev: false, last_fault_cb: None, stop_run: false, restored_ts_stale: false, held: vec![], spec_readers: Default::default(), spec_reader_defect_seen: false, ts_created: Default::default(), ts_changed_after_restore: false, bad_converged_seen: false, mixed_cycle_seen: false, validated_during_iteration: Default::default(), past_vals: vec![], memo_snapshots: vec![], untracked_cycle_reach: Default::default() }
+        E1 { case, db: Some(db), world, out: RunOut::default(), step: 0, never: Default::default(), oracles, queries: 0, cycle_panicked_in_rev: false, fb_defect_seen: false, injected_now: false, poisoned_now: false, injected_in_rev: false, last_fault_cb: None, stop_run: false, restored_ts_stale: false, held: vec![], spec_readers: Default::default(), spec_reader_defect_seen: false, spec_switch_seen: false, ts_created: Default::default(), ts_changed_after_restore: false, bad_converged_seen: false, mixed_cycle_seen: false, validated_during_iteration: Default::default(), past_vals: vec![], memo_snapshots: vec![], untracked_cycle_reach: Default::default() }
     }
 
     fn db(&self) -> &SimDatabase {
@@ -218,6 +220,12 @@ impl<'c> E1<'c> {
         let evs = self.db().shared.take_log();
         self.track_spec_readers(&evs);
         self.note_validations(&evs);
+        if !self.spec_switch_seen && self.case.prog.node_of_kind(Kind::Spec).is_some() {
+            let db = self.db();
+            if evs.iter().any(|ev| matches!(ev, Ev::Salsa { k: SK::WillDiscardStaleOutput, ing, .. } if salsa::Database::ingredient_debug_name(db, salsa::verif::ingredient_index_from_u32(*ing)) == "q_spec")) {
+                self.spec_switch_seen = true;
+            }
+        }
         let restored_already = self.out.stats.get("restores").copied().unwrap_or(0) > 0;
         if !restored_already {
             for ev in &evs {
@@ -583,7 +591,7 @@ impl<'c> E1<'c> {
                             self.out.viol("stale_output_discard_interrupted", step, format!("node {n}: after a panic in the event callback during stale-output deletion the retry fails: {m}"));
                             self.stop_run = true;
                         }
-                        PK::Msg(m) if m.contains("cannot delete read-locked id") && prog.node_of_kind(Kind::Spec).is_some() && self.out.revisions > 0 && self.spec_key_switched_in_step() => {
+                        PK::Msg(m) if m.contains("cannot delete read-locked id") && prog.node_of_kind(Kind::Spec).is_some() && self.out.revisions > 0 && (self.spec_switch_seen || self.spec_key_switched_in_step()) => {
                             // recorded finding (C10), other symptom: the switch of q_spec(E) from "specified" to
                             // "computed" is reported as unchanged, so the deep verification of the reader goes
                             // on to later edges (validating memos of structs it is about to drop) before a
